@@ -787,6 +787,18 @@ fn embedder_changes_apps() -> bool {
     })
 }
 
+fn embedder_bumps_versions() -> bool {
+    EMBEDDER_APPS.with(|e| {
+        let e = e.borrow();
+        let Some(shared) = e.as_ref() else { return false };
+        let Some(mut g) = shared.try_lock() else { return false };
+        for a in g.apps.iter_mut() {
+            a.version = omaha_client::version::Version::from([77, 7, 7, 7]);
+        }
+        true
+    })
+}
+
 pub struct SimAppSet {
     pub apps: Vec<App>,
     pub system: usize,
@@ -849,6 +861,11 @@ impl Installer for SimInstaller {
                 let spec = g.script.installs.get(g.cur.installs).cloned().unwrap_or_default();
                 g.cur.installs += 1;
                 g.log.push(Op::Install { plan_id: install_plan.id.clone() });
+                // an installer (or the embedder behind it) that records the new versions in the shared app set as soon as
+                // it has them: the running check must go on reporting with the versions it started with
+                if g.script.embedder_bumps_versions_at_install && embedder_bumps_versions() {
+                    g.log.push(Op::EmbedderChangedApps);
+                }
                 spec
             };
             // progress is reported in batches: batch size 1 = sequential reports; larger batches = several
